@@ -223,6 +223,11 @@ func (t *Transaction) rowsFromTransactionCacheAndDatabase(table string, where []
 	// prefer rows from transaction cache while copying into cache
 	// rows that are in the db.
 	for rowUUID, row := range rows {
+		if _, isDeleted := t.DeletedRows[rowUUID]; isDeleted {
+			// deleted earlier in this transaction: it must not come back to
+			// the transaction cache (and its indexes)
+			continue
+		}
 		if txnRow, found := txnRows[rowUUID]; found {
 			rows[rowUUID] = txnRow
 			// delete txnRows so that only inserted rows remain in txnRows
